@@ -120,16 +120,16 @@ def run(ctx):
     for fl in flavours(ctx):
         ctx.unit = fl
         ctx.doc('C08.6', 'native API forwarding: each public entry point of this property reaches the implementation of the same name with its parameters in order and returns its result (sibling slips such as trylock -> lock, signal -> broadcast, swapped arguments)')
-        lib.native_forwarding(ctx, 'C08.6', fl, lambda n: n.startswith('myth_uncond_'), floor=4)
-        rule_init_complete(ctx, fl)
-        rule1(ctx, fl)
-        rule2(ctx, fl)
+        ctx.attempt(lib.native_forwarding, ctx, 'C08.6', fl, lambda n: n.startswith('myth_uncond_'), floor=4)
+        ctx.attempt(rule_init_complete, ctx, fl)
+        ctx.attempt(rule1, ctx, fl)
+        ctx.attempt(rule2, ctx, fl)
         from . import c03
-        c03.rule_handover(ctx, fl, rule='C08.3', only=['myth_uncond_signal_body', 'myth_uncond_wait_cb'])
+        ctx.attempt(c03.rule_handover, ctx, fl, rule='C08.3', only=['myth_uncond_signal_body', 'myth_uncond_wait_cb'])
         from . import c12
         ctx.doc('C08.5', 'signal / wait do not use a worker env obtained before they yielded or switched (stale-value dataflow, '
                 'shared with C12.3): the signaller that waits for a late waiter may resume on another worker')
-        c12.rule3_env(ctx, fl, rule='C08.5', only=['myth_uncond_signal', 'myth_uncond_wait'], units=[('myth_if_native.c', None)])
+        ctx.attempt(c12.rule3_env, ctx, fl, rule='C08.5', only=['myth_uncond_signal', 'myth_uncond_wait'], units=[('myth_if_native.c', None)])
 
 
 SYNC = 'src/myth_sync_func.h'
